@@ -80,6 +80,33 @@ macro_rules! slice_bytes_e2e_harness {
     };
 }
 
+// @verif props=C09,C01 tier=quick cap=900 group=core fns=ops::slice
+/// `b[start:]` on a 2-byte byte string for ANY i64 start (the bytes arm of ops::slice end to end): no panic for
+/// offsets beyond either end, and the result is the byte string CPython selects.
+#[kani::proof]
+#[kani::unwind(5)]
+#[kani::stub(alloc::fmt::format, crate::verif_common::format_stub)]
+#[kani::stub(alloc::sync::Arc::drop_slow, crate::verif_common::arc_drop_slow_leak)]
+fn c09_slice_bytes_from_any_start() {
+    let a: i64 = kani::any();
+    let v = Value::from_bytes(vec![10u8, 11]);
+    let r = slice(v, Value::from(a), Value::from(()), Value::from(()));
+    let (first, _st, count) = py_slice(2, Some(a), None, 1);
+    match r {
+        Ok(Value(ValueRepr::Bytes(ref out))) => {
+            assert!(out.len() as u64 == count);
+            if out.len() > 0 {
+                assert!(first >= 0 && first < 2 && out[0] == 10 + first as u8);
+            }
+        }
+        _ => assert!(false),
+    }
+    kani::cover!(count == 0 && a > 2);
+    kani::cover!(count == 2 && a < -2);
+    kani::cover!(count == 1);
+    core::mem::forget(r);
+}
+
 // @verif-block props=C09,C01 cap=900 group=core doc=ops::slice_end_to_end_on_a_3-byte_byte_string_for_ANY_i64_start/stop_(or_omitted)_and_the_listed_step:_the_result_is_a_byte_string_holding_exactly_CPython's_selection_-_no_panic_for_offsets_beyond_the_end
 slice_bytes_e2e_harness!(c09_slice_bytes_e2e_step1, 1); // tier=experimental
 slice_bytes_e2e_harness!(c09_slice_bytes_e2e_step2, 2); // tier=experimental
